@@ -29,6 +29,11 @@ func expr(v ssa.Value, d int) string {
 	if d > 24 {
 		return "…"
 	}
+	if ph := rangeIndexOf(v); ph != nil {
+		// the index of "for i := range x": go/ssa keeps a hidden counter that starts at -1 and uses
+		// counter+1 as the index; rendered as the loop variable it is, like the i of a counting loop
+		return expr(ph, d+1)
+	}
 	switch x := v.(type) {
 	case *ssa.Const:
 		if x.Value == nil {
@@ -624,3 +629,32 @@ func CanonInstr(ins ssa.Instruction) string {
 
 // FieldNameOf: the name of the field a FieldAddr selects.
 func FieldNameOf(fa *ssa.FieldAddr) string { return fieldName(fa.X.Type(), fa.Field) }
+
+// rangeIndexOf: v is the current index of a range loop - the increment "counter + 1" of a phi that starts
+// at -1 and takes that same increment on the way round; returns the counter phi.
+func rangeIndexOf(v ssa.Value) *ssa.Phi {
+	bo, ok := v.(*ssa.BinOp)
+	if !ok || bo.Op != token.ADD {
+		return nil
+	}
+	ph, ok := bo.X.(*ssa.Phi)
+	if !ok || len(ph.Edges) != 2 {
+		return nil
+	}
+	if c, isC := bo.Y.(*ssa.Const); !isC || c.Value == nil || c.Value.Kind() != constant.Int || c.Value.ExactString() != "1" {
+		return nil
+	}
+	start, back := false, false
+	for _, e := range ph.Edges {
+		if c, isC := e.(*ssa.Const); isC && c.Value != nil && c.Value.Kind() == constant.Int && c.Value.ExactString() == "-1" {
+			start = true
+		}
+		if e == v {
+			back = true
+		}
+	}
+	if start && back {
+		return ph
+	}
+	return nil
+}
